@@ -158,8 +158,9 @@ func C17(r *core.Run) {
 			ok, why := matchAll(o.Out, "x"+long, "sentinelone", "sentineltwo", "before", "after")
 			return verdict(ok, false, true, why, len(o.Out))
 		case "generate include-except":
-			os.WriteFile(filepath.Join(wd, "regex-assembly/include/long.ra"), []byte(c17Place(c.Pos, "x"+long, "sentinelone", "sentineltwo", c.FinalNL)), 0o644)
-			os.WriteFile(filepath.Join(wd, "regex-assembly/exclude/longex.ra"), []byte(c17Place(c.Pos, "y"+long, "sentineltwo", "unrelated", c.FinalNL)), 0o644)
+			// two long entries that differ only at their very end: excluding one must keep the other
+			os.WriteFile(filepath.Join(wd, "regex-assembly/include/long.ra"), []byte(c17Place(c.Pos, "x"+long+"\nx"+long+"twin", "sentinelone", "sentineltwo", c.FinalNL)), 0o644)
+			os.WriteFile(filepath.Join(wd, "regex-assembly/exclude/longex.ra"), []byte(c17Place(c.Pos, "y"+long+"\nx"+long+"twin", "sentineltwo", "unrelated", c.FinalNL)), 0o644)
 			o := root.Generate("before\n##!> include-except long longex -- one uno\nafter\n")
 			if o.Kind != inproc.OK {
 				return verdict(false, true, true, "", 0)
@@ -168,6 +169,8 @@ func C17(r *core.Run) {
 			if ok {
 				if m, _ := matchAll(o.Out, "sentineltwo"); m {
 					ok, why = false, "excluded entry after the long line of the exclude file survives"
+				} else if m, _ := matchAll(o.Out, "x"+long+"twin"); m {
+					ok, why = false, "the excluded long entry survives"
 				}
 			}
 			return verdict(ok, false, true, why, len(o.Out))
@@ -335,8 +338,100 @@ func C17(r *core.Run) {
 		}
 	})
 	deaths = append(deaths, d2...)
+	// large files made of many ordinary lines (with and without one long line among them), rewritten so that the
+	// text grows, shrinks or keeps its length
+	type bigRes struct {
+		What string
+		OK   bool
+		Why  string
+	}
+	bigs, d3 := core.Parallel(r, "large", in{dir, r.Thorough()}, r.Workers, func(in in, shard, n int, emit func(bigRes)) {
+		wd := filepath.Join(in.Dir, fmt.Sprint("b", shard))
+		miniCRS().Materialise(wd)
+		ctx := crsctx.New(wd, "toolchain.yaml")
+		root := inproc.NewRoot(wd)
+		idx := 0
+		for _, blocks := range []int{10, 100, 400, 1000, 3000} {
+			for _, long := range []int{0, 70000} {
+				for _, v := range []string{"4.9.9", "4.10.0-rc1", "5"} {
+					if idx++; idx%n != shard {
+						continue
+					}
+					what := fmt.Sprintf("%d blocks, long line %d, version %s", blocks, long, v)
+					r.Inflight("large " + what)
+					// update-copyright
+					var sb strings.Builder
+					for i := 0; i < blocks; i++ {
+						fmt.Fprintf(&sb, "# OWASP CRS ver.4.0.0\n# rule %d\nSecRule ARGS \"@rx x%d\" \\\n    \"id:%d,\\\n    ver:'OWASP_CRS/4.0.0',\\\n    t:none\"\nSecComponentSignature \"OWASP_CRS/4.0.0\"\n", i, i, 900000+i)
+						if long > 0 && i == blocks/2 {
+							sb.WriteString("# " + strings.Repeat("l", long) + "\n")
+						}
+					}
+					x := sb.String()
+					p := filepath.Join(wd, "rules/REQUEST-901-BIG.conf")
+					os.WriteFile(p, []byte(x), 0o644)
+					ur := inproc.Guard(func() (string, error) { chore.UpdateCopyright(ctx, v, "2031"); return "", nil })
+					b, _ := os.ReadFile(p)
+					os.Remove(p)
+					if v == "5" {
+						// not a version the command accepts through the CLI; the library call is only used with accepted ones
+					} else if want := strings.ReplaceAll(x, "4.0.0", v); ur.Kind != inproc.OK && string(b) != x || ur.Kind == inproc.OK && string(b) != want {
+						emit(bigRes{"update-copyright: " + what, false, fmt.Sprintf("%s; rewritten file has %d bytes / %d lines, expected %d bytes / %d lines", ur.Kind, len(b), strings.Count(string(b), "\n"), len(want), strings.Count(want, "\n"))})
+					} else {
+						emit(bigRes{"update-copyright: " + what, true, ""})
+					}
+					if v != "4.9.9" {
+						continue
+					}
+					// generate: many entries (every entry must be matched), format: many lines, renumber: many tests
+					var es, ys []string
+					for i := 0; i < blocks; i++ {
+						es = append(es, fmt.Sprintf("  entry%dx", i))
+						ys = append(ys, fmt.Sprintf("  - test_id: %d", 7*i+3), "    desc: t")
+						if long > 0 && i == blocks/2 {
+							es = append(es, "y"+strings.Repeat("l", long))
+							ys = append(ys, "    data: "+strings.Repeat("l", long))
+						}
+					}
+					text := strings.Join(es, "\n") + "\n"
+					if o := root.Generate(text); o.Kind == inproc.OK {
+						re, err := regexp.Compile(`\A(?:` + o.Out + `)\z`)
+						missed := 0
+						for _, e := range es {
+							if err == nil && !re.MatchString(strings.TrimSpace(e)) {
+								missed++
+							}
+						}
+						emit(bigRes{"generate: " + what, err == nil && missed == 0, fmt.Sprintf("%d of %d entries are not matched by the generated regex (%v)", missed, len(es), err)})
+					}
+					ra := filepath.Join(wd, "regex-assembly/123456.ra")
+					os.WriteFile(ra, []byte(text), 0o644)
+					if fr := root.Format(ra, false); fr.Kind == inproc.OK {
+						fb, _ := os.ReadFile(ra)
+						emit(bigRes{"format: " + what, sameLines(text, string(fb)), fmt.Sprintf("formatted file has %d lines, input %d", strings.Count(string(fb), "\n"), strings.Count(text, "\n"))})
+					}
+					yp := filepath.Join(wd, "tests/regression/tests/REQUEST-123-TEST/123456.yaml")
+					y := strings.Join(ys, "\n") + "\n"
+					os.WriteFile(yp, []byte(y), 0o644)
+					if rr := inproc.Guard(func() (string, error) { return "", util.NewTestRenumberer().RenumberTest(yp, false, ctx) }); rr.Kind == inproc.OK {
+						yb, _ := os.ReadFile(yp)
+						ok := strings.Count(string(yb), "\n") == strings.Count(y, "\n") && strings.Contains(string(yb), fmt.Sprintf("test_id: %d\n", blocks)) && !strings.Contains(string(yb), fmt.Sprintf("test_id: %d\n", blocks+1))
+						emit(bigRes{"renumber-tests: " + what, ok, fmt.Sprintf("renumbered file has %d lines, input %d, last id %d expected", strings.Count(string(yb), "\n"), strings.Count(y, "\n"), blocks)})
+					}
+				}
+			}
+		}
+	})
+	deaths = append(deaths, d3...)
 	if r.IsWorker() {
 		return
+	}
+	bigRuns := 0
+	for _, b := range bigs {
+		bigRuns++
+		if !b.OK {
+			r.Report(core.Violation{Clause: "complete-or-loud:large file", Key: b.What, What: b.What + ": " + b.Why, Detail: b})
+		}
 	}
 	for _, d := range deaths {
 		r.HarnessError("worker %s/%d %s on %q: %s", d.Stage, d.Shard, d.Kind, tailStr(d.Case, 80), tailStr(d.Log, 300))
@@ -381,6 +476,7 @@ func C17(r *core.Run) {
 	r.Cov["evaluations"] = tot.Cases
 	r.Cov["states"] = tot.Cases
 	r.Cov["transitions"] = tot.Cases
+	r.Cov["large_file_runs"] = bigRuns
 	r.Cov["complete"] = tot.Complete
 	r.Cov["failed_loudly"] = tot.Loud
 	r.Cov["silently_incomplete"] = len(tot.Bad)
